@@ -1,3 +1,4 @@
 import NiVerif.DriverCore
 import NiVerif.Model.Timing
-def main : IO Unit := Driver.run [Model.Timing.dispatch]
+import NiVerif.Gen.Irregular
+def main : IO Unit := Driver.run [Model.Timing.dispatch, Driver.genHandler Gen.Irregular.dispatch]
